@@ -125,7 +125,7 @@ PROPS["C19"] = dict(level="exploration",
     assumptions=["reference wire format: protowire.AppendTag(2047, Fixed32Type) + little-endian crc32.Castagnoli of the exact bytes the inner codec returned for this call",
                  "equality of the decoded message is modulo the prepended unknown field 2047"],
     stages=[dict(name="codec", engine="codec", test="TestVerifCodec", batches=dict(quick=4, thorough=16),
-                 essential={"C19": ["C19.marshal", "C19.decode:codec", "C19.decode:proto", "C19.error-pass-through", "C19.earlier-output-intact"]}, timeout=dict(quick=900, thorough=7200))])
+                 essential={"C19": ["C19.marshal", "C19.decode:codec", "C19.decode:proto", "C19.error-pass-through", "C19.earlier-output-intact", "C19.decode-into-used-target"]}, timeout=dict(quick=900, thorough=7200))])
 
 PROPS["C17"] = dict(level="exploration",
     rule="seeded pb.ApiConfig values (zero values, nil sub-messages, up to 5 method entries with overlapping names, nil entries) and JSON texts (5 protojson renderings + mutations: unknown field, wrong type, truncation, wrong case, duplicates); non-trivial = a config driven through the whole pool observation (initial size, watermark, maxSize, per-method probes) or a parser differential or a GCPMultiEndpoint aliasing check completed; distinct = hash of the config text and variant",
@@ -143,7 +143,7 @@ PROPS["C12"] = dict(level="exploration",
     stages=[dict(name="stream", engine="stream", test="TestVerifStream", batches=dict(quick=8, thorough=16),
                  essential={"C12": ["C12.not-created-at-construction", "C12.creation-gated", "C12.recv-before-send", "C12.recv-waits-during-creation", "C12.recv-released",
                                     "C12.first-message-visible", "C12.sends-in-order", "C12.recv-delegated", "C12.recv-gets-creation-error", "C12.late-recv-reaches-stream",
-                                    "C12.recv-returns-on-context-end", "C12.bystander:before-send", "C12.bystander-delegates", "C12.unary-transparent", "C12.unary-nested-context", "C12.recv-released-while-send-blocks", "C12.late-recv-after-cancel-reaches-stream"]},
+                                    "C12.recv-returns-on-context-end", "C12.bystander:before-send", "C12.bystander-delegates", "C12.unary-transparent", "C12.unary-nested-context", "C12.recv-released-while-send-blocks", "C12.late-recv-after-cancel-reaches-stream", "C12.first-send-error-no-second-stream"]},
                  timeout=dict(quick=900, thorough=7200))])
 
 GME_ASSUME = ["real gRPC 1.56 client stack over in-process bufconn listeners; outage = dialer refuses + server stopped; reconnect backoff 5-20ms",
@@ -190,6 +190,8 @@ PROPS["C01"]["assumptions"] = PROPS["C01"]["assumptions"] + ["poollin stage: per
 PROPS["C02"]["stages"].append(stress_stage({"C02": ["C02.stress-quiescent-zero", "stress.placed"]}))
 PROPS["C03"]["stages"].append(stress_stage({"C03": ["C03.stress-max"]}))  # the gate scenario's counter is not essential: after a refactoring its site may not exist (then it is inconclusive)
 PROPS["C09"]["stages"].append(stress_stage({"C09": ["C09.stress-exact", "C09.stress-bind-picks"]}))
+PROPS["C05"]["stages"].append(dict(name="stream", engine="stream", test="TestVerifStream", batches=dict(quick=8, thorough=16),
+                                  essential={"C05": ["C12.not-created-at-construction", "C12.bystander:before-send"]}, timeout=dict(quick=900, thorough=7200)))
 PROPS["C05"]["stages"].append(dict(stress_stage({"C05": ["C05.stress-no-crash", "stress.placed"]}), crash_props=["C05"]))
 PROPS["C06"]["stages"].append(stress_stage({"C06": ["C06.stress-finished", "stress.placed"]}))
 for _p in ("C02", "C03", "C05", "C06", "C09"):
